@@ -217,6 +217,39 @@ class HistGen:
         kind = 1 if shape == "other-kind" else 1059
         self.op_store(self.new_event(kind=kind, tags=tags))
 
+    def g_ghost(self):
+        """store an event with an awkward tag list, take it out again in one of the ways the store offers, then ask for it
+        through every access path: a removed event that an index still serves is a ghost"""
+        r = self.r
+        letter, val = r.choice([b"t", b"e", b"p", b"T"]), r.choice(TVALS[1:4])
+        shape = r.choice(["empty-first", "empty-mid", "nameless-value", "valueless-first", "repeat", "long-name-first", "plain"])
+        tags = {"empty-first": [[], [letter, val]], "empty-mid": [[b"t", b"zz"], [], [letter, val]],
+                "nameless-value": [[b"", b"x"], [letter, val]], "valueless-first": [[letter], [letter, val]],
+                "repeat": [[letter, val], [letter, val]], "long-name-first": [[b"client", b"x"], [letter, val]],
+                "plain": [[letter, val]]}[shape]
+        how = r.choice(["remove", "delete", "replace", "vanish", "remove"])
+        kind = r.choice(RKINDS + PKINDS) if how == "replace" else r.choice([1, 1, 7, 1059])
+        if kind in PKINDS:
+            tags = [[b"d", b"gh"]] + tags
+        pk = r.choice(AUTHORS)
+        e = self.new_event(kind=kind, pk=pk, created=r.choice([1000, 2000]), tags=tags)
+        self.op_store(e)
+        if how == "remove":
+            self.ops.append(("remove", e["id"]))
+        elif how == "delete":
+            self.op_store(self.new_event(kind=5, pk=pk, created=3000, tags=[[b"e", e["id"].hex().encode()]]))
+        elif how == "replace":
+            self.op_store(self.new_event(kind=kind, pk=pk, created=e["created"] + 5, tags=[t for t in tags if t[:1] == [b"d"]] + [[b"q", b"new"]]))
+        else:
+            self.ops.append(("vanish", pk))
+        base = {"ids": [], "authors": [], "kinds": [], "tags": [], "since": None, "until": None, "limit": None}
+        for sh in ({"tags": [[letter, val]]}, {"tags": [[letter, val]], "authors": [pk]}, {"tags": [[letter, val]], "kinds": [kind]},
+                   {"authors": [pk], "kinds": [kind]}, {"authors": [pk]}, {"ids": [e["id"]]}, {"since": e["created"], "until": e["created"]}):
+            if r.random() < 0.7:
+                f = dict(base)
+                f.update(sh)
+                self.ops.append(("query", f, [], 1, 0, 0, self.now))
+
     def g_reopen(self):
         self.ops.append(("reopen",))
 
@@ -363,7 +396,7 @@ class HistGen:
 
     GENS = {"new": g_store_new, "addr": g_store_addr, "resubmit": g_store_resubmit, "delete": g_delete,
             "remove": g_remove, "vanish": g_vanish, "giftwrap": g_giftwrap, "reopen": g_reopen, "rebuild": g_rebuild,
-            "xput": g_xput, "query": g_query, "qown": g_query_own}
+            "xput": g_xput, "query": g_query, "qown": g_query_own, "ghost": g_ghost}
 
     def run(self):
         names = list(self.w)
